@@ -11,7 +11,7 @@ and wraps a receiver of another kind in a tracer call.  Everything random comes 
 """
 
 LITS = {
-    "int": ["0", "1", "2", "3", "7", "255"],
+    "int": ["0", "1", "2", "3"],
     "float": ["0.0", "1.5", "2.0"],
     "bool": ["True", "False"],
     "none": ["None"],
@@ -125,13 +125,12 @@ class Gen:
         return "(" + op.join(s for s, _k in parts) + ")", kind
 
     def is_operand(self):
-        r = self.rng.random()
-        if r < 0.4:
+        """operands of is / is not: the identity of a recording object is not the identity of the value it stands for,
+        so only operands whose identity relations are the same in both runs: the singletons themselves, and freshly
+        built containers (identical to nothing else)"""
+        if self.rng.random() < 0.5:
             return self.rng.choice(["None", "True", "False"])
-        rs = [n for n, k in self.vars.items() if k == "R"]
-        if rs and r < 0.7:
-            return self.rng.choice(rs)
-        return self.wrap(self.lit(self.rng.choice(["none", "int", "bool", "str"])))
+        return self.wrap(self.lit(self.rng.choice(["list", "dict", "set"])))
 
     def e_compare(self, d):
         n = self.rng.choice([1, 1, 1, 2, 2, 3])
@@ -293,6 +292,8 @@ class Gen:
                 if rng.random() < 0.6:
                     it = rng.choice(["[(1, 2), (3, 4)]", self.wrap("[(1, 2), (3, 4)]"), self.wrap("{'a': 1}") + ".items()",
                                      "[(1, 2, 3)]"])
+                elif not it.startswith("t("):
+                    it = self.wrap(it)  # the items are unpacked: keep native sets (hash order) out of them
             else:
                 target = new[0]
             saved = {n: hidden.get(n) for n in new}
@@ -389,7 +390,8 @@ class Gen:
             r = rng.random()
             if r < 0.5:
                 n = rng.choice([1, 2, 2, 3, 4])
-                parts = [self.expr(1)[0] for _ in range(n)]
+                # a native set among the items could be iterated by a nested target (hash order): wrap it
+                parts = [src if kind != "S" else self.wrap(src) for src, kind in (self.expr(1) for _ in range(n))]
                 rhs, kind = ("(" + ", ".join(parts) + ("," if n == 1 else "") + ")"), "C"
                 if rng.random() < 0.4:
                     rhs = "[" + ", ".join(parts) + "]"
